@@ -940,6 +940,28 @@ def enum_big(tier, seed):
     for tb in (BIG_TABLES if tier != "quick" else ("nodes", "edges", "mutations", "individuals")):
         for how in (("set", "append", "set_copy", "set_extend") if tier != "quick" else ("set_append", "copy_extend")):
             yield dict(op="grow", table=tb, rows=rows, how=how)
+    # one call that grows a ragged column by more than 100 MiB (and one that crosses 65536 bytes)
+    for tb, col in (RAGGED_BIG if tier != "quick" else RAGGED_BIG[:2]):
+        yield dict(op="ragged", table=tb, col=col, nrows=11, width=10_000_000)
+        yield dict(op="ragged", table=tb, col=col, nrows=3, width=30_000)
+
+
+RAGGED_BIG = [("nodes", "metadata"), ("sites", "ancestral_state"), ("mutations", "derived_state"),
+              ("edges", "metadata"), ("migrations", "metadata"), ("individuals", "metadata"),
+              ("populations", "metadata"), ("provenances", "record")]
+
+
+def _ragged_columns(np, name, col, nrows, width):
+    """nrows rows whose ragged column `col` holds `width` bytes each; every other column minimal."""
+    cols = _big_columns(np, name, nrows)
+    data = (np.arange(nrows * width, dtype=np.uint32) % 251).astype(np.int8)
+    off = np.arange(nrows + 1, dtype=np.uint64) * width
+    if name == "individuals":
+        cols["location"] = np.zeros(0)
+        cols["location_offset"] = np.zeros(nrows + 1, dtype=np.uint64)
+    cols[col] = data
+    cols[col + "_offset"] = off
+    return cols, data
 
 
 def _big_columns(np, name, n):
@@ -973,6 +995,28 @@ def run_big(case, ctx):
 
     ctx.nt(True)
     ctx.label(case["op"])
+    if case["op"] == "ragged":
+        name, col, nrows, width = case["table"], case["col"], case["nrows"], case["width"]
+        cols, data = _ragged_columns(np, name, col, nrows, width)
+        tc = tskit.TableCollection(1.0)
+        tb = getattr(tc, name)
+        tb.set_columns(**cols)
+        for reps in (1, 2, 3):
+            if reps > 1:
+                tb.append_columns(**cols)
+            got = getattr(tb, col)
+            off = getattr(tb, col + "_offset")
+            ctx.check(tb.num_rows == reps * nrows and len(got) == reps * nrows * width, "ragged.size",
+                      f"{name}.{col}: {tb.num_rows} rows / {len(got)} bytes after {reps} blocks")
+            for r in range(reps):
+                ctx.check(np.array_equal(got[r * nrows * width:(r + 1) * nrows * width], data), "ragged.column",
+                          f"{name}.{col} block {r} of {reps}")
+            ctx.check(np.array_equal(off, np.arange(reps * nrows + 1, dtype=np.uint64) * width), "ragged.offsets",
+                      f"{name}.{col}_offset after {reps} blocks")
+            del got
+        t2 = tc.copy()
+        ctx.check(np.array_equal(getattr(getattr(t2, name), col), getattr(tb, col)), "ragged.copy", f"{name}.{col}")
+        return
     if case["op"] == "grow":
         n, name = case["rows"], case["table"]
         cols = _big_columns(np, name, n)
@@ -1062,5 +1106,5 @@ SUBCHECKS = [
     SubCheck("C09.boundary_ids", run_boundary, strategy=boundary_case, quick=320, thorough=8000, flavour="asan",
              rule="tree sequence with >=1 edge; every listed API point is called with id == row count"),
     SubCheck("C09.big_sizes", run_big, enumerate=enum_big, quick=1, thorough=1, flavour="asan", shards=8, hang_s=900,
-             rule="calls with 32767..70000 reference / sample sets; one table call that grows a table by 2.2 million rows"),
+             rule="calls with 32767..70000 reference / sample sets; one table call that grows a table by 2.2 million rows, or a ragged column by 110 MB"),
 ]
